@@ -141,7 +141,7 @@ def step (s : St) : List String → St × String
         let amb := String.join (idx.map fun _ => "0")
         let alts := ",".intercalate ((List.range (P.length + 1)).map fun a =>
           String.join (idx.map fun i => toString (getMatchScoreAlt s.v d P a i).toNat))
-        (s, s!"pat {Pattern.render P} codes={codes} amb={amb} alts={alts} m={m} s={sp}")
+        (s, s!"pat {Pattern.render P} codes={codes} amb={amb} alts={alts} ns=0 m={m} s={sp}")
       else (s, "pat ERR:invalid")
     | none, _ => (s, "pat ERR:nodoc")
     | _, none => (s, "pat ERR:parse")
@@ -159,7 +159,7 @@ def step (s : St) : List String → St × String
       let sp := String.join (idx.map fun i => if Spec.matchesFn d p i then "1" else "0")
       let amb := String.join (idx.map fun _ => "0")
       -- one alternative: index 0 is the pattern, index 1 is past the end
-      (s, s!"pat {p.render} codes={codes} amb={amb} alts={m},{amb} m={m} s={sp}")
+      (s, s!"pat {p.render} codes={codes} amb={amb} alts={m},{amb} ns=0 m={m} s={sp}")
     | none, _, _, _ => (s, "pat ERR:nodoc")
     | _, _, _, _ => (s, "pat ERR:parse")
   | _ => (s, "bad")
